@@ -256,9 +256,13 @@ def complex_add(document, cls, tags):
         if a.xml_choice_group is None:
             sequence.append(member)
         else:
-            choice_tags[a.xml_choice_group].append(member)
+            if a.xml_choice_group not in choice_tags:
+                # the group sits where its first member is declared: that's
+                # where the protocols, which write members in declaration
+                # order, put it in the document
+                sequence.append(choice_tags[a.xml_choice_group])
 
-    sequence.extend(choice_tags.values())
+            choice_tags[a.xml_choice_group].append(member)
 
     if len(sequence) > 0:
         sequence_parent.append(sequence)
